@@ -258,6 +258,22 @@ func TestVerif_C11(t *testing.T) {
 				return
 			}
 			defer r.cleanup()
+			if idx%4 == 1 {
+				// like the daemon, keep one *Config across camera connections: an earlier, short
+				// connection from a camera model with other motion defaults must leave no trace in
+				// the settings that shape this connection's files
+				other := leptonCamera("lepton3.5", 16, 12, 9)
+				if cam.Model == "lepton3.5" {
+					other = leptonCamera("lepton3", 16, 12, 9)
+				}
+				pf := &pFrame{Seq: 50000, TimeOnMS: timeOnFor(50000), Pix: newPix(other.ResX, other.ResY, 3000), FPATempCK: 30000, FPAFFCCK: 30000}
+				r.serve(pacedFeed(other, []*pFrame{pf}, 0), nil)
+				if r.Err != io.EOF {
+					c.Violation("connection-ended-abnormally", "earlier connection", fmt.Sprintf("handleConn returned %v", r.Err))
+					return
+				}
+				c.Count("connections_after_a_reconnect", 1)
+			}
 			if throttled {
 				r.serve(pacedFeed(cam, frames, 2*time.Millisecond), nil)
 			} else {
